@@ -115,8 +115,21 @@ func runC06(l *world.Lab, c caseC06, rec *kit.Recorder) error {
 		return nil
 	}
 	if !out.Success {
-		rec.Label("c06", "refused")
-		return nil
+		// the model accepts the list, nothing is paused: a refusal is legitimate only when one of
+		// the module's dependencies (ICS-20, bank, the swap venue, a bridge, the event manager)
+		// refused something - every such call is recorded. A refusal with no failed dependency
+		// call is the module itself refusing a list it must apply.
+		for _, cl := range s.Calls {
+			if cl.Err != nil {
+				rec.Label("c06", "refused: a dependency call failed ("+cl.Site+")")
+				return nil
+			}
+		}
+		if run.DontCare {
+			rec.Label("c06", "refused (model: don't-care)")
+			return nil
+		}
+		return fmt.Errorf("order [%s]: the model accepts the list and no dependency call failed (calls %v), yet the transfer was refused: the listed actions were not applied", order, s.Sites())
 	}
 	if len(kinds) >= 2 || strings.Contains(order, "swap") {
 		rec.NonTrivial(kit.JSON(c))
